@@ -8,6 +8,7 @@ import (
 	"crypto/rsa"
 	"errors"
 	"fmt"
+	"net"
 	"reflect"
 	"strings"
 	"sync"
@@ -77,6 +78,89 @@ type c28gCase struct {
 	shk        []string // server's host key algorithm list (derived from skeys)
 	kexClass   string
 	hkClass    string
+	// lists of the package's side that stay fixed for the whole connection
+	goCiphers, goMACs []string
+	// key re-exchanges after the first one: the independent peer sends a new
+	// KEXINIT with re-drawn lists each time
+	rekeys []c28gRekey
+}
+
+// c28gRekey is the independent peer's configuration for one re-exchange.
+type c28gRekey struct {
+	byPeer             bool // initiated by the independent peer (else by the package, through RekeyThreshold)
+	guess              bool
+	kex, hk            []string
+	cipherCS, cipherSC []string
+	macCS, macSC       []string
+}
+
+var c28gCipherPool = []string{"aes128-ctr", "aes192-ctr", "aes256-ctr", "aes128-gcm@openssh.com", "aes256-gcm@openssh.com", "chacha20-poly1305@openssh.com"}
+var c28gMACPool = []string{"hmac-sha2-256", "hmac-sha2-512", "hmac-sha2-256-etm@openssh.com", "hmac-sha2-512-etm@openssh.com", "hmac-sha1", "hmac-sha1-96"}
+
+// c28gSubset returns a shuffled non-empty subset of pool that contains at
+// least one element of must (so that negotiation can succeed).
+func c28gSubset(d *drbg, pool, must []string, avoidFirst string) []string {
+	p := c28gShuffle(d, pool)
+	n := 1 + int(d.bytes(1)[0])%len(p)
+	if n > 4 {
+		n = 4
+	}
+	out := p[:n]
+	ok := false
+	for _, x := range out {
+		for _, m := range must {
+			if x == m {
+				ok = true
+			}
+		}
+	}
+	if !ok {
+		out = append(out, c28gShuffle(d, must)[0])
+	}
+	if len(out) > 1 && out[0] == avoidFirst {
+		out[0], out[1] = out[1], out[0]
+	}
+	return out
+}
+
+// c28gPlanRekeys draws the re-exchanges of a case.
+func c28gPlanRekeys(cs *c28gCase, n int, d *drbg) {
+	goKex, goHK := cs.skex, cs.shk
+	if !cs.goIsServer {
+		goKex, goHK = cs.ckex, cs.chk
+	}
+	// names for which the server side owns a key (only these can be agreed on)
+	prevHK := ""
+	for r := 0; r < n; r++ {
+		rk := c28gRekey{byPeer: d.bytes(1)[0]%2 == 0, guess: d.bytes(1)[0]%3 == 0}
+		rk.kex = c28gSubset(d, c28gKexPool, goKex, "")
+		if cs.goIsServer {
+			// the peer is the client: its first entry that the server serves wins
+			rk.hk = c28gSubset(d, append(append([]string{}, cs.shk...), "ecdsa-sha2-nistp521"), cs.shk, prevHK)
+			prevHK, _ = firstCommon(rk.hk, cs.shk)
+		} else {
+			// the peer is the server: the package's first entry that the peer offers wins
+			var served []string
+			for _, a := range cs.shk {
+				for _, b := range goHK {
+					if a == b {
+						served = append(served, a)
+					}
+				}
+			}
+			offer := c28gWithout(cs.shk, prevHK)
+			if len(offer) == 0 || d.bytes(1)[0]%4 == 0 {
+				offer = cs.shk
+			}
+			rk.hk = c28gSubset(d, offer, served, "")
+			prevHK, _ = firstCommon(goHK, rk.hk)
+		}
+		rk.cipherCS = c28gSubset(d, c28gCipherPool, cs.goCiphers, "")
+		rk.cipherSC = c28gSubset(d, c28gCipherPool, cs.goCiphers, "")
+		rk.macCS = c28gSubset(d, c28gMACPool, cs.goMACs, "")
+		rk.macSC = c28gSubset(d, c28gMACPool, cs.goMACs, "")
+		cs.rekeys = append(cs.rekeys, rk)
+	}
 }
 
 func (cs *c28gCase) String() string {
@@ -117,6 +201,7 @@ func c28gWithout(l []string, drop ...string) []string {
 // shard sees every class), the concrete lists are drawn.
 func c28gBuild(i int, d *drbg) *c28gCase {
 	cs := &c28gCase{goIsServer: i%2 == 0}
+	nRekeySel := i / 2
 	i /= 2
 	cs.guess = i%4 != 3
 	i /= 4
@@ -179,6 +264,9 @@ func c28gBuild(i int, d *drbg) *c28gCase {
 		missing := c28gFormats[formats[2]][0]
 		cs.chk = append([]string{missing}, c28gShuffle(d, cs.shk)...)
 	}
+	cs.goCiphers = c28gShuffle(d, c28gCipherPool)
+	cs.goMACs = c28gShuffle(d, c28gMACPool)
+	c28gPlanRekeys(cs, 1+nRekeySel%3, d)
 	return cs
 }
 
@@ -190,14 +278,25 @@ func c28gNames(formats []string) []string {
 	return out
 }
 
+// c28gExchange is what the independent peer observed for one key exchange.
+type c28gExchange struct {
+	algs      refpeer.Negotiated
+	keyType   string // type string of the host key blob K_S
+	sigFormat string // format string of the signature blob
+	byPeer    bool
+	guess     bool
+	unsure    bool // more than one exchange completed between two observations: not attributable
+}
+
 type c28gOutcome struct {
-	ownInit, peerInit []byte // first KEXINIT sent / received by the independent peer
-	goAlgs            *ssh.NegotiatedAlgorithms
-	goErr, peerErr    error
-	peer              *refpeer.Conn
-	stalled           bool
-	timedOut          bool
-	dataFlowed        bool
+	ownInits, peerInits [][]byte // KEXINIT payloads sent / received by the independent peer, in order
+	exchanges           []c28gExchange
+	pingsAfter          []bool   // request/reply completed after exchange k
+	goHostKeyTypes      []string // key types handed to the package's HostKeyCallback, in order
+	goAlgs              *ssh.NegotiatedAlgorithms
+	goErr, peerErr      error
+	stalled             bool
+	timedOut            bool
 }
 
 // c28gGuessPacket builds a plausible first packet of the guesser's preferred
@@ -228,42 +327,71 @@ func c28gGuessPacket(c *refpeer.Conn, pref string) []byte {
 	return w.Byte(30).Str(junk(32)).B
 }
 
-// c28gRun performs one handshake plus authentication plus one request/reply
-// under the new keys.
-func c28gRun(cs *c28gCase, keys *c28gKeys) c28gOutcome {
+// c28gRun performs one connection: first key exchange, "none"
+// authentication, a request/reply, then the planned re-exchanges, each
+// followed by a request/reply under the new keys.
+func c28gRun(cs *c28gCase, keys *c28gKeys) *c28gOutcome {
 	goEnd, peerEnd := memPipe()
-	var out c28gOutcome
+	out := &c28gOutcome{}
 	type goRes struct {
 		a   *ssh.NegotiatedAlgorithms
 		err error
 	}
 	goCh := make(chan goRes, 1)
 	peerCh := make(chan error, 1)
-	flow := make(chan bool, 2)
+	var mu sync.Mutex // guards out.* written from the two sides and the plan hand-over
 
-	pcfg := refpeer.Config{Strict: cs.strict, ExtInfo: false, Ext: &refpeer.Ext{GexRequest: &[3]uint32{2048, 2048, 8192}}}
+	pcfg := refpeer.Config{Strict: cs.strict, Ext: &refpeer.Ext{GexRequest: &[3]uint32{2048, 2048, 8192}}}
 	if cs.guess {
 		pcfg.Guess = &refpeer.Guess{Packet: c28gGuessPacket}
 	}
-	var capMu sync.Mutex
 	pcfg.OnPacketOut = func(seq uint32, p []byte) {
-		capMu.Lock()
-		if len(p) > 0 && p[0] == refpeer.MsgKexInit && out.ownInit == nil {
-			out.ownInit = append([]byte{}, p...)
+		if len(p) > 0 && p[0] == refpeer.MsgKexInit {
+			mu.Lock()
+			out.ownInits = append(out.ownInits, append([]byte{}, p...))
+			mu.Unlock()
 		}
-		capMu.Unlock()
 	}
 	pcfg.OnPacketIn = func(seq uint32, p []byte) {
-		capMu.Lock()
-		if len(p) > 0 && p[0] == refpeer.MsgKexInit && out.peerInit == nil {
-			out.peerInit = append([]byte{}, p...)
+		if len(p) > 0 && p[0] == refpeer.MsgKexInit {
+			mu.Lock()
+			out.peerInits = append(out.peerInits, append([]byte{}, p...))
+			mu.Unlock()
 		}
-		capMu.Unlock()
 	}
-	var peerConn *refpeer.Conn
+	firstStr := func(b []byte) string { r := &refpeer.R{B: b}; return r.S() }
+	// snapshot records every exchange the peer has completed but not yet recorded
+	snapshot := func(c *refpeer.Conn, byPeer, guess bool) {
+		mu.Lock()
+		defer mu.Unlock()
+		several := c.KexCount-len(out.exchanges) > 1
+		for len(out.exchanges) < c.KexCount {
+			out.exchanges = append(out.exchanges, c28gExchange{algs: c.Algs, keyType: firstStr(c.LastKex.HostKey), sigFormat: firstStr(c.LastKex.Sig), byPeer: byPeer, guess: guess, unsure: several})
+			out.pingsAfter = append(out.pingsAfter, false)
+		}
+	}
+	pinged := func() {
+		mu.Lock()
+		if n := len(out.pingsAfter); n > 0 {
+			out.pingsAfter[n-1] = true
+		}
+		mu.Unlock()
+	}
+	apply := func(c *refpeer.Conn, rk c28gRekey) {
+		c.Cfg.Kex, c.Cfg.HostKeyAlgos = rk.kex, rk.hk
+		c.Cfg.CiphersCS, c.Cfg.CiphersSC, c.Cfg.MACsCS, c.Cfg.MACsSC = rk.cipherCS, rk.cipherSC, rk.macCS, rk.macSC
+		c.Cfg.Guess = nil
+		if rk.guess {
+			c.Cfg.Guess = &refpeer.Guess{Packet: c28gGuessPacket}
+		}
+	}
+	big := strings.Repeat("x", 6000) // crosses the package's RekeyThreshold of 4096 bytes
+	const threshold = 4096
+
 	if cs.goIsServer {
 		scfg := &ssh.ServerConfig{NoClientAuth: true}
-		scfg.KeyExchanges = cs.skex
+		scfg.KeyExchanges, scfg.Ciphers, scfg.MACs = cs.skex, cs.goCiphers, cs.goMACs
+		scfg.RekeyThreshold = threshold
 		for _, f := range cs.skeys {
 			scfg.AddHostKey(keys.goSigner[f])
 		}
@@ -280,19 +408,36 @@ func c28gRun(cs *c28gCase, keys *c28gKeys) c28gOutcome {
 				}
 			}()
 			a := conn.Conn.(ssh.AlgorithmsConnMetadata).Algorithms()
-			goCh <- goRes{&a, nil}
-			conn.Wait()
+			werr := conn.Wait() // returns when the peer closes or a re-exchange fails
+			goCh <- goRes{&a, werr}
 		}()
 		pcfg.Kex, pcfg.HostKeyAlgos = cs.ckex, cs.chk
 		go func() {
 			c, err := refpeer.NewClient(peerEnd, pcfg)
-			peerConn = c
 			if err != nil {
 				peerCh <- err
 				return
 			}
-			// "none" authentication, then a global request that must be answered
-			err = func() error {
+			snapshot(c, true, cs.guess)
+			request := func(name string) error {
+				if err := c.WritePacket((&refpeer.W{}).Byte(refpeer.MsgGlobalRequest).S(name).Bool(true).B); err != nil {
+					return err
+				}
+				for {
+					p, err := c.ReadSkip(true)
+					if err != nil {
+						return err
+					}
+					if p[0] == refpeer.MsgGlobalRequest {
+						continue
+					}
+					if p[0] != refpeer.MsgRequestFailure && p[0] != refpeer.MsgRequestSuccess {
+						return fmt.Errorf("expected a reply to the global request, got packet type %d", p[0])
+					}
+					return nil
+				}
+			}
+			peerCh <- func() error {
 				if err := c.WritePacket((&refpeer.W{}).Byte(refpeer.MsgServiceRequest).S("ssh-userauth").B); err != nil {
 					return err
 				}
@@ -312,28 +457,58 @@ func c28gRun(cs *c28gCase, keys *c28gKeys) c28gOutcome {
 				if p[0] != refpeer.MsgUserAuthSuccess {
 					return fmt.Errorf("expected USERAUTH_SUCCESS, got %d", p[0])
 				}
-				if err := c.WritePacket((&refpeer.W{}).Byte(refpeer.MsgGlobalRequest).S("verif-ping@example.com").Bool(true).B); err != nil {
+				if err := request("verif-ping@example.com"); err != nil {
 					return err
 				}
-				for {
-					if p, err = c.ReadSkip(true); err != nil {
-						return err
+				pinged()
+				for _, rk := range cs.rekeys {
+					apply(c, rk)
+					before := c.KexCount
+					if rk.byPeer {
+						if err := c.Rekey(); err != nil {
+							return fmt.Errorf("re-exchange started by the independent client: %w", err)
+						}
+					} else {
+						// make the package start it: exceed its RekeyThreshold
+						if err := request(big); err != nil {
+							return fmt.Errorf("re-exchange started by the package: %w", err)
+						}
+						// the package starts the exchange asynchronously (its kexLoop
+						// goroutine): keep the connection busy until its KEXINIT arrives
+						for tries := 0; c.KexCount == before && tries < 3000; tries++ {
+							if err := request("verif-ping@example.com"); err != nil {
+								return fmt.Errorf("re-exchange started by the package: %w", err)
+							}
+							if c.KexCount == before {
+								time.Sleep(10 * time.Millisecond)
+							}
+						}
+						if c.KexCount == before {
+							return errors.New("harness: the package did not start a re-exchange after exceeding RekeyThreshold")
+						}
 					}
-					if p[0] == refpeer.MsgGlobalRequest {
-						continue // e.g. hostkeys announcements
+					snapshot(c, rk.byPeer, rk.guess)
+					if err := request("verif-ping@example.com"); err != nil {
+						return fmt.Errorf("request after re-exchange: %w", err)
 					}
-					if p[0] != refpeer.MsgRequestFailure && p[0] != refpeer.MsgRequestSuccess {
-						return fmt.Errorf("expected a reply to the global request, got %d", p[0])
-					}
-					flow <- true
-					return nil
+					pinged()
 				}
+				return nil
 			}()
-			peerCh <- err
+			c.Close()
 		}()
 	} else {
-		ccfg := &ssh.ClientConfig{User: "u", HostKeyCallback: ssh.InsecureIgnoreHostKey(), HostKeyAlgorithms: cs.chk}
-		ccfg.KeyExchanges = cs.ckex
+		ccfg := &ssh.ClientConfig{User: "u", HostKeyAlgorithms: cs.chk}
+		ccfg.HostKeyCallback = func(hostname string, remote net.Addr, key ssh.PublicKey) error {
+			mu.Lock()
+			out.goHostKeyTypes = append(out.goHostKeyTypes, key.Type())
+			mu.Unlock()
+			return nil
+		}
+		ccfg.KeyExchanges, ccfg.Ciphers, ccfg.MACs = cs.ckex, cs.goCiphers, cs.goMACs
+		ccfg.RekeyThreshold = threshold
+		var next *c28gRekey // plan handed to the peer's goroutine (under mu)
+		var peerKex int     // exchanges completed by the peer (under mu)
 		go func() {
 			conn, chans, reqs, err := ssh.NewClientConn(goEnd, "mem", ccfg)
 			if err != nil {
@@ -347,13 +522,49 @@ func c28gRun(cs *c28gCase, keys *c28gKeys) c28gOutcome {
 				}
 			}()
 			a := conn.(ssh.AlgorithmsConnMetadata).Algorithms()
-			if _, _, err := conn.SendRequest("verif-ping@example.com", true, nil); err != nil {
-				goCh <- goRes{&a, fmt.Errorf("global request after the handshake: %v", err)}
-				return
+			send := func(name string, payload []byte) error {
+				_, _, err := conn.SendRequest(name, true, payload)
+				return err
 			}
-			flow <- true
-			goCh <- goRes{&a, nil}
-			conn.Wait()
+			kexes := func() int { mu.Lock(); defer mu.Unlock(); return peerKex }
+			goCh <- goRes{&a, func() error {
+				if err := send("verif-ping@example.com", nil); err != nil {
+					return fmt.Errorf("request after the handshake: %v", err)
+				}
+				for i := range cs.rekeys {
+					rk := cs.rekeys[i]
+					before := kexes()
+					mu.Lock()
+					next = &rk
+					mu.Unlock()
+					if err := send("verif-apply@example.com", nil); err != nil {
+						return fmt.Errorf("request before re-exchange %d: %v", i+1, err)
+					}
+					if !rk.byPeer {
+						if err := send("verif-big@example.com", []byte(big)); err != nil {
+							return fmt.Errorf("re-exchange %d started by the package: %v", i+1, err)
+						}
+					}
+					// the reply to a ping sent now can only arrive after the exchange
+					for tries := 0; tries < 3000; tries++ {
+						if err := send("verif-ping@example.com", nil); err != nil {
+							return fmt.Errorf("request after re-exchange %d: %v", i+1, err)
+						}
+						if kexes() > before {
+							break
+						}
+						time.Sleep(10 * time.Millisecond) // the exchange is started asynchronously
+					}
+					if kexes() == before {
+						return errors.New("harness: no re-exchange happened")
+					}
+					if err := send("verif-ping2@example.com", nil); err != nil {
+						return fmt.Errorf("request after re-exchange %d: %v", i+1, err)
+					}
+				}
+				return send("verif-done@example.com", nil)
+			}()}
+			conn.Close()
 		}()
 		pcfg.Kex, pcfg.HostKeyAlgos = cs.skex, cs.shk
 		for _, f := range cs.skeys {
@@ -361,37 +572,64 @@ func c28gRun(cs *c28gCase, keys *c28gKeys) c28gOutcome {
 		}
 		go func() {
 			c, err := refpeer.NewServer(peerEnd, pcfg)
-			peerConn = c
 			if err != nil {
 				peerCh <- err
 				return
 			}
-			st := &refpeer.EchoStats{}
-			if err := refpeer.ServeAuth(c, refpeer.EchoOptions{AcceptNone: true}, st); err != nil {
-				peerCh <- err
-				return
+			cur := c28gRekey{byPeer: false, guess: cs.guess}
+			note := func() {
+				snapshot(c, cur.byPeer, cur.guess)
+				mu.Lock()
+				peerKex = c.KexCount
+				mu.Unlock()
 			}
-			for {
-				p, err := c.ReadSkip(true)
-				if err != nil {
-					peerCh <- err
-					return
+			note()
+			peerCh <- func() error {
+				st := &refpeer.EchoStats{}
+				if err := refpeer.ServeAuth(c, refpeer.EchoOptions{AcceptNone: true}, st); err != nil {
+					return err
 				}
-				if p[0] == refpeer.MsgGlobalRequest {
+				for {
+					p, err := c.ReadSkip(true)
+					if err != nil {
+						return err
+					}
+					note() // a re-exchange started by the package is handled inside ReadSkip
+					if p[0] != refpeer.MsgGlobalRequest {
+						continue
+					}
 					r := &refpeer.R{B: p[1:]}
 					name, want := r.S(), r.Bool()
-					if want {
-						if err := c.WritePacket([]byte{refpeer.MsgRequestFailure}); err != nil {
-							peerCh <- err
-							return
+					startRekey := false
+					if name == "verif-apply@example.com" {
+						mu.Lock()
+						rk := next
+						mu.Unlock()
+						if rk != nil {
+							apply(c, *rk)
+							cur = *rk
+							startRekey = rk.byPeer
 						}
 					}
-					if name == "verif-ping@example.com" {
-						peerCh <- nil
-						return
+					if want {
+						if err := c.WritePacket([]byte{refpeer.MsgRequestFailure}); err != nil {
+							return err
+						}
+					}
+					if strings.HasPrefix(name, "verif-ping") {
+						pinged()
+					}
+					if startRekey {
+						if err := c.Rekey(); err != nil {
+							return fmt.Errorf("re-exchange started by the independent server: %w", err)
+						}
+						note()
+					}
+					if name == "verif-done@example.com" {
+						return nil
 					}
 				}
-			}
+			}()
 		}()
 	}
 
@@ -408,13 +646,13 @@ func c28gRun(cs *c28gCase, keys *c28gKeys) c28gOutcome {
 		select {
 		case r := <-goCh:
 			gr = &r
-			if r.err != nil && !closed {
+			if !closed && (r.err != nil || !cs.goIsServer) {
 				closed = true
 				goEnd.Close()
 			}
 		case e := <-peerCh:
 			pr = &e
-			if e != nil && !closed {
+			if !closed && (e != nil || cs.goIsServer) {
 				closed = true
 				goEnd.Close()
 			}
@@ -428,29 +666,24 @@ func c28gRun(cs *c28gCase, keys *c28gKeys) c28gOutcome {
 				out.stalled, closed = true, true
 				goEnd.Close()
 			}
-			if !closed && time.Since(start) > 150*time.Second {
+			if !closed && time.Since(start) > 240*time.Second {
 				out.timedOut, closed = true, true
 				goEnd.Close()
 			}
 		}
 	}
 	goEnd.Close()
-	capMu.Lock()
-	defer capMu.Unlock()
-	out.goAlgs, out.goErr, out.peerErr, out.peer = gr.a, gr.err, *pr, peerConn
-	select {
-	case <-flow:
-		out.dataFlowed = true
-	default:
-	}
+	mu.Lock()
+	defer mu.Unlock()
+	out.goAlgs, out.goErr, out.peerErr = gr.a, gr.err, *pr
 	return out
 }
 
-// c28gModel recomputes negotiation and the guess rule from the KEXINIT
-// payloads that went over the wire.
-func c28gModel(cs *c28gCase, out *c28gOutcome) (want rw.Agreed, wrong, kexDiff, hkDiff bool, err error) {
-	if out.ownInit == nil || out.peerInit == nil {
-		return want, false, false, false, errors.New("KEXINIT payloads not available")
+// c28gModel recomputes negotiation and the guess rule of exchange k from the
+// KEXINIT payloads that went over the wire in that exchange.
+func c28gModel(cs *c28gCase, out *c28gOutcome, k int) (want rw.Agreed, peerFlag, wrong, kexDiff, hkDiff bool, err error) {
+	if len(out.ownInits) <= k || len(out.peerInits) <= k {
+		return want, false, false, false, false, errors.New("KEXINIT payloads not available")
 	}
 	parse := func(p []byte) (*c28KexInit, error) {
 		v, _, err := rw.Decode(p, reflect.TypeOf(c28KexInit{}))
@@ -459,10 +692,10 @@ func c28gModel(cs *c28gCase, out *c28gOutcome) (want rw.Agreed, wrong, kexDiff, 
 		}
 		return v.Interface().(*c28KexInit), nil
 	}
-	own, e1 := parse(out.ownInit)
-	other, e2 := parse(out.peerInit)
+	own, e1 := parse(out.ownInits[k])
+	other, e2 := parse(out.peerInits[k])
 	if e1 != nil || e2 != nil {
-		return want, false, false, false, fmt.Errorf("KEXINIT parse: %v %v", e1, e2)
+		return want, false, false, false, false, fmt.Errorf("KEXINIT parse: %v %v", e1, e2)
 	}
 	ci, si := own, other
 	if !cs.goIsServer { // the independent peer is the server
@@ -473,73 +706,48 @@ func c28gModel(cs *c28gCase, out *c28gOutcome) (want rw.Agreed, wrong, kexDiff, 
 		return
 	}
 	if len(ci.Kex) == 0 || len(si.Kex) == 0 || len(ci.HostKey) == 0 || len(si.HostKey) == 0 {
-		return want, false, false, false, errors.New("empty list")
+		return want, false, false, false, false, errors.New("empty list")
 	}
 	// RFC 4253 7.1: "the guess is considered wrong if the kex algorithm and/or
 	// the host key algorithm is guessed wrong (server and client have
 	// different preferred algorithm)"; preferred = first on the list
 	kexDiff = ci.Kex[0] != si.Kex[0]
 	hkDiff = ci.HostKey[0] != si.HostKey[0]
-	return want, kexDiff || hkDiff, kexDiff, hkDiff, nil
+	return want, own.FirstKexFollows, kexDiff || hkDiff, kexDiff, hkDiff, nil
+}
+
+// c28gKeyTypeOf maps a host key algorithm to the type string of its key blob.
+func c28gKeyTypeOf(algo string) string {
+	if strings.HasPrefix(algo, "rsa-sha2-") {
+		return "ssh-rsa"
+	}
+	return algo
 }
 
 func c28GuessPart(c *ev.Collector, t *testing.T) {
 	c.Oracle("guessed first kex packet (first_kex_packet_follows) from an independent peer as client and as server: RFC 4253 7.1 right/wrong rule recomputed from the KEXINITs on the wire; the package must ignore exactly the guessed packet iff the guess is wrong, the handshake must complete (independent exchange hash and signature check), encrypted requests must flow, Algorithms() must equal the model")
+	c.Oracle("every key exchange of a connection (1-3 re-exchanges with re-drawn KEXINIT lists of the independent peer, started by either side): kex method, host key / signature algorithm, cipher and MAC per direction must be the RFC 4253 7.1 result of THAT exchange's KEXINIT pair (the independent peer switches per the model, checks the signature format, and a request/reply must flow after each NEWKEYS)")
 	keys, err := c28gMakeKeys()
 	if err != nil {
 		c.Inconclusive("key generation: " + err.Error())
 		t.Fatal(err)
 	}
-	n := ev.Scale(96, 960) // 96 = one pass over role x guess x kex class x host key class
+	// 96 consecutive indices = one pass over role x guess x kex class x host key
+	// class; the indices are split across the shards
+	n := ev.Scale(192, 2880)
 	d := newDRBG(ev.Seed()*7919 + 17)
 	for i := 0; i < n; i++ {
+		if !ev.Mine(i / 2) { // keep both roles of an index pair in one shard
+			continue
+		}
 		cs := c28gBuild(i, d)
 		out := c28gRun(cs, keys)
 		if out.timedOut {
-			c.Inconclusive("guess handshake exceeded 150 s without being parked (harness/load): " + cs.String())
+			c.Inconclusive("connection exceeded 240 s without being parked (harness/load): " + cs.String())
 			t.Fatalf("VF-INCONCLUSIVE: handshake timeout %v", cs)
 		}
-		want, wrong, kexDiff, hkDiff, merr := c28gModel(cs, &out)
-		var msg string
-		rule := ""
-		if merr == nil {
-			switch {
-			case !cs.guess:
-				rule = "no guess announced"
-			case wrong:
-				rule = fmt.Sprintf("RFC 4253 7.1: guess WRONG (first kex differs=%v, first host key differs=%v) -> exactly one packet after the KEXINIT must be ignored", kexDiff, hkDiff)
-			default:
-				rule = "RFC 4253 7.1: guess RIGHT (same first kex and same first host key algorithm) -> the next packet is the first packet of the exchange"
-			}
-		}
-		switch {
-		case out.stalled:
-			msg = fmt.Sprintf("handshake stalled (both sides waiting for input, nothing in flight for 30 s); %s", rule)
-		case merr != nil && (out.goErr != nil || out.peerErr != nil):
-			msg = fmt.Sprintf("handshake failed before both KEXINITs were seen: package err %v, peer err %v", out.goErr, out.peerErr)
-		case merr != nil:
-			c.Inconclusive("model: " + merr.Error())
-			t.Fatalf("VF-INCONCLUSIVE: %v", merr)
-		case out.goErr != nil || out.peerErr != nil:
-			msg = fmt.Sprintf("handshake failed: package side: %v; independent peer: %v; %s; agreed algorithms would be %+v", out.goErr, out.peerErr, rule, want)
-		case !out.dataFlowed:
-			msg = fmt.Sprintf("no request/reply under the new keys; %s", rule)
-		default:
-			a := out.goAlgs
-			w, r := a.Write, a.Read
-			if cs.goIsServer {
-				w, r = r, w
-			}
-			if a.KeyExchange != want.Kex || a.HostKey != want.HostKey || w.Cipher != want.CipherCS || r.Cipher != want.CipherSC || w.MAC != want.MACCS || r.MAC != want.MACSC {
-				msg = fmt.Sprintf("Algorithms() = %+v, RFC 4253 7.1 negotiation gives %+v", *a, want)
-			}
-			if cs.guess && out.peer != nil && len(out.peer.Guesses) > 0 && out.peer.Guesses[0].Wrong != wrong {
-				c.Inconclusive("refpeer and harness disagree on the guess rule")
-				t.Fatalf("VF-INCONCLUSIVE: guess rule disagreement %v", cs)
-			}
-		}
-		if msg != "" {
-			msg = "first_kex_packet_follows " + cs.String() + ": " + msg
+		fail := func(msg string) {
+			msg = "key exchange " + cs.String() + ": " + msg
 			c.Violation(msg, "")
 			t.Fatalf("VF-VIOLATION: property=C28 %s", msg)
 		}
@@ -547,33 +755,151 @@ func c28GuessPart(c *ev.Collector, t *testing.T) {
 		if cs.goIsServer {
 			role = "role=package-is-server"
 		}
-		g := "guess=none"
-		if cs.guess {
-			g = "guess=right"
-			if wrong {
-				g = "guess=wrong"
+		// the package's own error matters when its handshake failed, when its
+		// script failed (client role), or to explain a failure of the peer
+		goFailed := out.goErr != nil && (out.goAlgs == nil || !cs.goIsServer)
+		nEx := len(out.ownInits)
+		if len(out.peerInits) < nEx {
+			nEx = len(out.peerInits)
+		}
+		var prev rw.Agreed
+		for k := 0; k < nEx; k++ {
+			want, flag, wrong, kexDiff, hkDiff, merr := c28gModel(cs, out, k)
+			if merr != nil {
+				// e.g. no common algorithm: the planner is supposed to avoid that
+				c.Inconclusive(fmt.Sprintf("model for exchange %d: %v %v", k, merr, cs))
+				t.Fatalf("VF-INCONCLUSIVE: %v", merr)
+			}
+			rule := "no guess announced"
+			if flag && wrong {
+				rule = fmt.Sprintf("RFC 4253 7.1: guess WRONG (first kex differs=%v, first host key differs=%v) -> exactly one packet after the KEXINIT must be ignored", kexDiff, hkDiff)
+			} else if flag {
+				rule = "RFC 4253 7.1: guess RIGHT (same first kex and same first host key algorithm) -> the next packet is the first packet of the exchange"
+			}
+			where := fmt.Sprintf("exchange #%d of the connection (0 = initial)", k)
+			if k > 0 && k-1 < len(cs.rekeys) {
+				by := "the package (RekeyThreshold)"
+				if cs.rekeys[k-1].byPeer {
+					by = "the independent peer"
+				}
+				where += fmt.Sprintf(", started by %s, independent peer's new lists: kex %v host keys %v ciphers c2s %v s2c %v MACs c2s %v s2c %v", by, cs.rekeys[k-1].kex, cs.rekeys[k-1].hk, cs.rekeys[k-1].cipherCS, cs.rekeys[k-1].cipherSC, cs.rekeys[k-1].macCS, cs.rekeys[k-1].macSC)
+			}
+			expect := fmt.Sprintf("%s; %s; RFC 4253 7.1 result of this exchange's KEXINIT pair: %+v", where, rule, want)
+			if k >= len(out.exchanges) {
+				// the exchange did not complete on the independent side
 				switch {
-				case kexDiff && hkDiff:
-					g += ":kex-and-hostkey-differ"
-				case kexDiff:
-					g += ":kex-differs"
+				case out.stalled:
+					fail(fmt.Sprintf("stalled (both sides waiting for input, nothing in flight for 30 s) in %s", expect))
 				default:
-					g += ":hostkey-differs"
+					fail(fmt.Sprintf("exchange failed: package side: %v; independent peer: %v; %s", out.goErr, out.peerErr, expect))
 				}
 			}
+			ex := out.exchanges[k]
+			if !ex.unsure {
+				got := rw.Agreed{Kex: ex.algs.Kex, HostKey: ex.algs.HostKey, CipherCS: ex.algs.CipherCS, CipherSC: ex.algs.CipherSC, MACCS: ex.algs.MACCS, MACSC: ex.algs.MACSC, CompCS: want.CompCS, CompSC: want.CompSC}
+				if c28AEAD(got.CipherCS) {
+					got.MACCS = ""
+				}
+				if c28AEAD(got.CipherSC) {
+					got.MACSC = ""
+				}
+				if got != want {
+					c.Inconclusive(fmt.Sprintf("refpeer negotiated %+v, harness model %+v", got, want))
+					t.Fatalf("VF-INCONCLUSIVE: refpeer/model disagreement")
+				}
+				if ex.keyType != c28gKeyTypeOf(want.HostKey) || ex.sigFormat != want.HostKey {
+					fail(fmt.Sprintf("host key blob of type %q with a %q signature was used; %s", ex.keyType, ex.sigFormat, expect))
+				}
+				if !cs.goIsServer && k < len(out.goHostKeyTypes) && out.goHostKeyTypes[k] != c28gKeyTypeOf(want.HostKey) {
+					fail(fmt.Sprintf("HostKeyCallback was handed a %q key; %s", out.goHostKeyTypes[k], expect))
+				}
+			}
+			if !out.pingsAfter[k] {
+				switch {
+				case out.stalled:
+					fail(fmt.Sprintf("stalled after NEWKEYS (both sides waiting, nothing in flight for 30 s): no request/reply under the keys of %s", expect))
+				default:
+					fail(fmt.Sprintf("no request/reply under the new keys (package side: %v; independent peer: %v) after %s", out.goErr, out.peerErr, expect))
+				}
+			}
+			if k == 0 {
+				if out.goAlgs == nil {
+					fail(fmt.Sprintf("the package's handshake failed: %v (peer: %v); %s", out.goErr, out.peerErr, expect))
+				}
+				a := out.goAlgs
+				w, r := a.Write, a.Read
+				if cs.goIsServer {
+					w, r = r, w
+				}
+				if a.KeyExchange != want.Kex || a.HostKey != want.HostKey || w.Cipher != want.CipherCS || r.Cipher != want.CipherSC || w.MAC != want.MACCS || r.MAC != want.MACSC {
+					fail(fmt.Sprintf("Algorithms() = %+v; %s", *a, expect))
+				}
+			}
+			// evidence classes
+			g := "guess=none"
+			if flag {
+				g = "guess=right"
+				if wrong {
+					g = "guess=wrong"
+					switch {
+					case kexDiff && hkDiff:
+						g += ":kex-and-hostkey-differ"
+					case kexDiff:
+						g += ":kex-differs"
+					default:
+						g += ":hostkey-differs"
+					}
+				}
+			}
+			if k == 0 {
+				pref := "preferred-kex=" + cs.ckex[0]
+				if !cs.goIsServer {
+					pref = "preferred-kex=" + cs.skex[0]
+				}
+				classes := []string{"e2e-guess:" + role + "," + g, "e2e-guess:" + cs.kexClass, "e2e-guess:" + cs.hkClass, "e2e-guess:" + pref}
+				if flag && wrong && !kexDiff && strings.Contains(cs.hkClass, "later-on-server") {
+					classes = append(classes, "e2e-guess:same-first-kex,client-first-hostkey-later-on-server-list,"+role)
+				}
+				c.Case(flag, fmt.Sprintf("guess|%s|%s|%s|%s|%s|strict=%v|neg=%s/%s", role, g, cs.kexClass, cs.hkClass, pref, cs.strict, want.Kex, want.HostKey), classes...)
+			} else {
+				var changed []string
+				for _, x := range []struct {
+					n    string
+					a, b string
+				}{{"kex", prev.Kex, want.Kex}, {"hostkey", prev.HostKey, want.HostKey}, {"cipher-c2s", prev.CipherCS, want.CipherCS}, {"cipher-s2c", prev.CipherSC, want.CipherSC}, {"mac-c2s", prev.MACCS, want.MACCS}, {"mac-s2c", prev.MACSC, want.MACSC}} {
+					if x.a != x.b {
+						changed = append(changed, x.n)
+					}
+				}
+				by := "by-package"
+				if ex.byPeer {
+					by = "by-peer"
+				}
+				classes := []string{fmt.Sprintf("e2e-rekey:exchange#%d,%s,%s", k, role, by), "e2e-rekey:" + g}
+				for _, ch := range changed {
+					classes = append(classes, fmt.Sprintf("e2e-rekey:exchange#%d,changed=%s", k, ch))
+				}
+				if len(changed) == 0 {
+					classes = append(classes, "e2e-rekey:nothing-changed")
+				}
+				c.Case(true, fmt.Sprintf("rekey|%d|%s|%s|%s|%s", k, role, by, g, strings.Join(changed, ",")), classes...)
+			}
+			prev = want
 		}
-		pref := "preferred-kex=" + cs.ckex[0]
-		if !cs.goIsServer {
-			pref = "preferred-kex=" + cs.skex[0]
+		// failures not attributable to a recorded exchange
+		switch {
+		case nEx == 0:
+			fail(fmt.Sprintf("failed before both KEXINITs were exchanged: package side: %v; independent peer: %v", out.goErr, out.peerErr))
+		case out.stalled:
+			fail("connection stalled (both sides waiting for input, nothing in flight for 30 s) after the last completed exchange")
+		case out.peerErr != nil || goFailed:
+			fail(fmt.Sprintf("connection failed after %d completed exchanges (planned %d): package side: %v; independent peer: %v", len(out.exchanges), 1+len(cs.rekeys), out.goErr, out.peerErr))
+		case len(out.exchanges) < 1+len(cs.rekeys):
+			c.Inconclusive(fmt.Sprintf("only %d of %d planned exchanges happened without any error", len(out.exchanges), 1+len(cs.rekeys)))
+			t.Fatalf("VF-INCONCLUSIVE: missing exchanges %v", cs)
 		}
-		hk := strings.TrimPrefix(cs.hkClass, "hostkey-first-")
-		classes := []string{"e2e-guess:" + role + "," + g, "e2e-guess:" + cs.kexClass, "e2e-guess:" + cs.hkClass, "e2e-guess:" + pref}
-		if cs.guess && wrong && !kexDiff && strings.Contains(hk, "later-on-server") {
-			classes = append(classes, "e2e-guess:same-first-kex,client-first-hostkey-later-on-server-list,"+role)
-		}
-		c.Case(cs.guess, fmt.Sprintf("guess|%s|%s|%s|%s|%s|strict=%v|neg=%s/%s", role, g, cs.kexClass, cs.hkClass, pref, cs.strict, want.Kex, want.HostKey), classes...)
 		if c.WantSample() {
-			c.Sample(map[string]any{"case": cs.String(), "rule": rule, "negotiated": want})
+			c.Sample(map[string]any{"case": cs.String(), "exchanges": len(out.exchanges), "host_key_types_seen_by_callback": out.goHostKeyTypes})
 		}
 	}
 }
